@@ -227,7 +227,8 @@ def check_property(prop, tier, a):
                         'lineno': o['witness'].get('lineno'), 'detail': o['witness'].get('detail'),
                         'path': o['witness'].get('path'), 'native_replay': rep,
                         'smt2': o['witness'].get('smt', '')})
-            if rep.get('status') != 'reproduced' and baseline.get(o['oid']) != 'proved':
+            structural_global = o['contract'] == 'structural' and any(k in o['oid'] for k in ('::ownership:memo:', '::ownership:global:', '::registry-write:', '::ownership:attr:self.', '::ownership:mut:self.', '::ownership:item:self.'))
+            if rep.get('status') != 'reproduced' and baseline.get(o['oid']) != 'proved' and not structural_global:
                 # a countermodel that does not replay, on an obligation that never verified on the committed
                 # baseline: undecided (DESIGN 2.1 step 6), not a violation
                 demoted.append({'contract': o['contract'], 'why': f"sat-unconfirmed on non-baseline obligation {o['kind']}:{o['label']}"})
